@@ -21,12 +21,37 @@ type vrtBench struct {
 
 var vrtBenchSeq int
 
+// vrtHookTopics wraps the topic store so that a harness can act at the moment
+// the broker changes a subscription (ordering of effect versus acknowledgement).
+type vrtHookTopics struct {
+	topics.Provider
+	onSubscribe   func(filter []byte)
+	onUnsubscribe func(filter []byte)
+}
+
+func (h *vrtHookTopics) Subscribe(topic []byte, qos byte, sub interface{}) (byte, error) {
+	if h.onSubscribe != nil {
+		h.onSubscribe(topic)
+	}
+	return h.Provider.Subscribe(topic, qos, sub)
+}
+
+func (h *vrtHookTopics) Unsubscribe(topic []byte, sub interface{}) error {
+	if h.onUnsubscribe != nil {
+		h.onUnsubscribe(topic)
+	}
+	return h.Provider.Unsubscribe(topic, sub)
+}
+
+var vrtTopicsHook *vrtHookTopics // set by vrtBroker
+
 // vrtBroker: a broker with its own (fresh) session and topic stores.
 func vrtBroker(authenticator string) *vrtBench {
 	vrtBenchSeq++
 	name := fmt.Sprintf("vrt%d", vrtBenchSeq)
 	sessions.Register(name, sessions.NewMemProvider())
-	topics.Register(name, topics.NewMemProvider())
+	vrtTopicsHook = &vrtHookTopics{Provider: topics.NewMemProvider()}
+	topics.Register(name, vrtTopicsHook)
 	svr := &Server{BufferSize: 1, SessionsProvider: name, TopicsProvider: name, Authenticator: authenticator}
 	if err := svr.checkConfiguration(); err != nil {
 		panic(err)
